@@ -313,10 +313,10 @@ def foreign_events(ctx, W):
                     kw['s2k'] = (3, 10, 16)
                 else:
                     kw['s2k'] = (3, [8, 2, 10, 9, 11, 1][ci % 6], [0, 96, 16][ri % 3])
-            zl = rk in ('cv25519', 'ecdh256', 'ecdh384') and alg in (9, 7)
+            zl = (rk in ('cv25519', 'ecdh256', 'ecdh384') and alg in (9, 7)) or (rk == 'rsa' and alg in (9, 8, 3))
             p40 = rk in ('cv25519', 'ecdh256', 'ecdh384') and alg in (8, 11, 7)
             blob, log = enc.encrypt_message(inner, alg, recipients=recips, passphrases=pws, fmt='old' if n % 5 == 0 else 'new', partial=(n % 4 == 0), zero_lead_shared=zl, pad40=p40, **kw)
-            e = {'k': 'foreign', 'label': 'cipher=%d to=%s inner=%s%s%s' % (alg, rk, label, ' (shared secret with a leading zero octet)' if zl else '', ' (session block padded to 40 octets)' if p40 else ''), 'blob': octets(blob), 'log': log, 'recipients': rcs, 'inner': octets(inner),
+            e = {'k': 'foreign', 'label': 'cipher=%d to=%s inner=%s%s%s' % (alg, rk, label, (' (RSA integer with a leading zero octet)' if rk == 'rsa' else ' (shared secret with a leading zero octet)') if zl else '', ' (session block padded to 40 octets)' if p40 else ''), 'blob': octets(blob), 'log': log, 'recipients': rcs, 'inner': octets(inner),
                  'expected': _sha(content)}
             try:
                 m = pgpy.PGPMessage.from_blob(blob)
